@@ -576,6 +576,28 @@ Proof.
   rewrite Hc. f_equal. apply stamps_in_cnt; try assumption; try lia.
 Qed.
 
+(* a pointer of the new state addresses the samples of an old pointer that correspond to its
+   own (narrower) time range *)
+Definition refines_ptr (G : list Z) (c : chan) (q : ptr) : Prop :=
+  exists sp, In sp (c_ptrs c) /\ t_s (p_tr sp) <= t_s (p_tr q) /\ t_e (p_tr q) <= t_e (p_tr sp) /\
+    ptr_samples c q = sub (ptr_samples c sp) (cnt_lt (t_s (p_tr q)) G - cnt_lt (t_s (p_tr sp)) G)
+                                             (cnt_lt (t_e (p_tr q)) G - cnt_lt (t_s (p_tr sp)) G).
+
+Lemma sub_all {A} (l : list A) : sub l 0 (zlen l) = l.
+Proof. unfold sub. rewrite Z.sub_0_r, to_nat_zlen. simpl. apply firstn_all. Qed.
+
+Lemma refines_self G c p : aligned_ptr G c p -> In p (c_ptrs c) -> refines_ptr G c p.
+Proof.
+  intros Hal Hin. exists p. split; [exact Hin|]. split; [lia|]. split; [lia|].
+  rewrite Z.sub_diag. unfold aligned_ptr in Hal. rewrite <- Hal. symmetry. apply sub_all.
+Qed.
+
+Lemma refines_all_self G c : chan_ok G c -> Forall (refines_ptr G c) (c_ptrs c).
+Proof.
+  intros Hok. pose proof (ok_al G c Hok) as Hal. rewrite Forall_forall in *. intros p Hp.
+  apply refines_self; auto.
+Qed.
+
 Section Cases.
 Variables (G : list Z) (c : chan) (a b : Z).
 Hypothesis HG : sincr G.
@@ -785,6 +807,36 @@ Proof using All.
     unfold aligned_ptr in Hal. unfold ks in Hk1. lia.
   - symmetry. apply (filter_id_equal_counts G c a b ep (t_s (p_tr ep)) xe); try assumption; try lia.
 Qed.
+(* the new pointers address sub-lists of the old pointers' samples *)
+Lemma nl_refines : Forall (refines_ptr G c) nl.
+Proof using All.
+  destruct (in_facts sp Hspin) as (Hpa & Hal & H0 & HM & Hne).
+  unfold nl. rewrite so_zero. destruct (ks =? 0) eqn:E; [constructor|]. apply Z.eqb_neq in E.
+  constructor; [|constructor]. exists sp. split; [exact Hspin|].
+  destruct (left_half c sp Hfp Hpa (TR (t_s (p_tr sp)) a') (Z.to_nat ks)) as [Hs _].
+  unfold PL. rewrite Hso. simpl t_s. simpl t_e. split; [lia|]. split; [lia|].
+  rewrite Hs, Z.sub_diag, Hca'. unfold sub. fold ks. rewrite Z.sub_0_r. reflexivity.
+Qed.
+
+Lemma nr_refines : Forall (refines_ptr G c) nr.
+Proof using All.
+  destruct (in_facts ep Hepin) as (Hpa & Hal & H0 & HM & Hne).
+  unfold nr. rewrite eo_zero. destruct (ke =? zlen (ptr_samples c ep)) eqn:E; [constructor|]. apply Z.eqb_neq in E.
+  destruct (Hb' ltac:(lia)) as [Hc Hbb].
+  constructor; [|constructor]. exists ep. split; [exact Hepin|].
+  destruct (right_half c ep Hfp Hpa (TR b' (t_e (p_tr ep))) (Z.to_nat ke)) as (Hs & _ & _).
+  unfold PR. rewrite Heo. simpl t_s. simpl t_e. split; [lia|]. split; [lia|].
+  rewrite Hs, Hc. fold ke. unfold aligned_ptr in Hal. rewrite <- Hal.
+  unfold sub. rewrite firstn_all2; [reflexivity|]. rewrite skipn_length. unfold zlen in *. lia.
+Qed.
+
+Lemma result_refines L M R :
+  c_ptrs c = L ++ M ++ R -> Forall (refines_ptr G c) (L ++ (nl ++ nr) ++ R).
+Proof using All.
+  intros E. pose proof (refines_all_self G c Hok) as Hall. rewrite E in Hall.
+  rewrite !Forall_app in Hall. destruct Hall as (HL & _ & HR).
+  rewrite !Forall_app. split; [exact HL|]. split; [|exact HR]. split; [apply nl_refines|apply nr_refines].
+Qed.
 End Cases.
 
 (* ------------------------------------------------------------------ the theorem *)
@@ -795,7 +847,8 @@ Theorem dom_delete_exact P c a b c' :
   widx P -> chan_ok (allst P) c -> a <= b ->
   dom_delete true P c (TR a b) = Ok c' ->
   chan_ok (allst P) c' /\
-  content (allst P) c' = filter (outside_ab a b) (content (allst P) c).
+  content (allst P) c' = filter (outside_ab a b) (content (allst P) c) /\
+  Forall (refines_ptr (allst P) c) (c_ptrs c').
 Proof.
   intros Hw Hok Hab Hdel. set (G := allst P) in *.
   pose proof (allst_sincr P Hw) as HG. fold G in HG.
@@ -803,8 +856,10 @@ Proof.
   assert (Hfp : files_pos c) by apply Hok.
   assert (Hnoop : forall L R, c_ptrs c = L ++ R -> (forall x, In x L -> t_e (p_tr x) <= a) ->
             (forall z, In z R -> b <= t_s (p_tr z)) ->
-            chan_ok G c /\ content G c = filter (outside_ab a b) (content G c)).
-  { intros L R E HL HR. split; [exact Hok|]. symmetry. eapply content_noop; eauto. }
+            chan_ok G c /\ content G c = filter (outside_ab a b) (content G c) /\
+            Forall (refines_ptr G c) (c_ptrs c)).
+  { intros L R E HL HR. split; [exact Hok|]. split; [symmetry; eapply content_noop; eauto|].
+    apply refines_all_self. exact Hok. }
   unfold dom_delete in Hdel. simpl t_s in Hdel. simpl t_e in Hdel.
   destruct (usearch (doms c) (point a)) as [sd0 sx] eqn:Eus.
   destruct (start_pos c Hsorted a sd0 sx Eus) as [(Hsx & Hsd & Hall)|(L & sp & R & E & Hl & HLa & Hsc)].
@@ -857,6 +912,8 @@ Proof.
                 ep xe b' eo Hepin Hke Heo Hxe Hxeb Hbxe Hb') as Hss.
   pose proof (skip_multi G c a b HG Hok Hab sp xs a' so Hspin Hks Hso Hxs Haxs Hxsa Hca' Ha'xs Ha'lt
                 ep xe b' eo Hepin Hke Heo Hxe Hxeb Hbxe Hb') as Hsm.
+  pose proof (result_refines G c a b HG Hok Hab sp xs a' so Hspin Hks Hso Hxs Haxs Hxsa Hca' Ha'xs Ha'lt
+                ep xe b' eo Hepin Hke Heo Hxe Hxeb Hbxe Hb') as Hrefs.
   cbv zeta in Hsingle, Hmulti. fold ks ke in Hss, Hsm.
   destruct (Z.lt_trichotomy sd ed) as [Hlt|[Heq|Hgt]].
   - (* the bounds fall into different domains *)
@@ -869,7 +926,7 @@ Proof.
     { rewrite E, HR. simpl. rewrite <- app_assoc. reflexivity. }
     destruct ((sd =? ed - 1) && (so =? p_size sp) && (eo =? p_size ep)) eqn:Eskip.
     + (* adjacent domains, nothing between the snapped bounds *)
-      inversion Hdel; subst c'. split; [exact Hok|].
+      inversion Hdel; subst c'. split; [exact Hok|]. split; [|apply refines_all_self; exact Hok].
       apply andb_true_iff in Eskip as [Eskip E3]. apply andb_true_iff in Eskip as [E1 E2].
       apply Z.eqb_eq in E1, E2, E3.
       assert (Mid = []).
@@ -896,7 +953,8 @@ Proof.
         assert (H2 : skipn (Z.to_nat (ed + 1)) (c_ptrs c) = R').
         { rewrite E', (app_cons_assoc L' ep R'), <- Hl', <- (zlen_snoc L' ep). apply skipn_zlen_app. }
         rewrite H1, H2, <- Hl, firstn_zlen_app, skipn_zlen_app. reflexivity. }
-      rewrite Hlist. apply (Hmulti L Mid R'); assumption.
+      rewrite Hlist. destruct (Hmulti L Mid R' Hps HLa HRb) as [A1 A2].
+      split; [exact A1|]. split; [exact A2|]. simpl c_ptrs. apply (Hrefs L (sp :: Mid ++ [ep]) R' Hps).
   - (* both bounds in the same domain *)
     assert (HLL : L = L' /\ sp :: R = ep :: R').
     { apply app_eq_len; [rewrite <- E; exact E'|unfold zlen in *; lia]. }
@@ -910,7 +968,8 @@ Proof.
     assert (Hps : c_ptrs c = L ++ [sp] ++ R) by (rewrite E; reflexivity).
     destruct (p_size sp <? so + eo) eqn:Ebad; [discriminate|]. apply Z.ltb_ge in Ebad.
     destruct (so + eo =? p_size sp) eqn:Eskip.
-    + inversion Hdel; subst c'. split; [exact Hok|]. apply Z.eqb_eq in Eskip.
+    + inversion Hdel; subst c'. split; [exact Hok|]. split; [|apply refines_all_self; exact Hok].
+      apply Z.eqb_eq in Eskip.
       apply (Hss L R Hspep Hps Hxle); try assumption.
       (* equal byte counts of the two prefixes: equal sample counts *)
       rewrite <- Hspep in *.
@@ -931,7 +990,8 @@ Proof.
         assert (H2 : skipn (Z.to_nat (ed + 1)) (c_ptrs c) = R).
         { rewrite E, (app_cons_assoc L sp R), <- Heq, <- Hl, <- (zlen_snoc L sp). apply skipn_zlen_app. }
         rewrite H1, H2, <- Hl, firstn_zlen_app, skipn_zlen_app. reflexivity. }
-      rewrite Hlist. apply (Hsingle L R); assumption.
+      rewrite Hlist. destruct (Hsingle L R Hspep Hps Hxle HLa HRb) as [A1 A2].
+      split; [exact A1|]. split; [exact A2|]. simpl c_ptrs. apply (Hrefs L [sp] R Hps).
   - (* the end position precedes the start position: both bounds in one gap, or an error *)
     replace (ed <? sd) with true in Hdel by (symmetry; apply Z.ltb_lt; lia).
     destruct (negb (sd =? ed + 1) || negb (so =? 0) || negb (eo =? 0)) eqn:Eg; simpl in Hdel; [discriminate|].
